@@ -19,12 +19,16 @@ LEVEL_TEXT = (
     "point array holds origin + i*a1 + j*a2 + k*a3 (resp. the tuple of 1-D nodes) at the flat index of (i,j,k), last index "
     "fastest; tensor weights are products of the 1-D weights and separable integrands integrate to the product of the 1-D "
     "sums; Rectangle/Trapezoid/Alternative weights sum to V, V*prod s/(s+1), V*prod (s-1)/s with |sum/V - 1| <= sum 1/s_i; "
-    "the 1-D Fourier2 factor sums to 0 for every even n (2/(n^2 pi) for n=1,3) so the scheme violates the bound (negation proved at a witness) "
-    "and raises in 2-D; from_molecule keeps the margin when the centre of charge is the centre of the extent and "
-    "violates it otherwise (negation proved at a witness); closest_point returns a nearest node for positive diagonal axes "
-    "when the rounded coordinates are inside the grid (negation proved for a negative axis and for a point outside the box); "
-    "nested cubic interpolation over any 1-D operator exact on cubics reproduces every tensor-cubic polynomial and its "
-    "partial derivatives; the Bell-polynomial chain rule of the logarithmic variant up to order 3. "
+    "the 1-D Fourier2 factor sums to 0 for every even n, so the 3-D weights sum to 0 whenever an axis has an even number of points and the scheme violates the bound (negation proved at a witness), "
+    "and raises in 2-D; from_molecule(rotate=False) in closed form for every molecule: it keeps the margin when the centre of "
+    "charge is the centre of the extent and violates it otherwise (negation proved at a witness); with rotate=True the box is "
+    "laid out along the rows of the eigenvector matrix while the extent is measured along its columns (witness proved); "
+    "closest_point returns the flat index of a nearest node of the grid for every non-zero diagonal axes (either sign) and "
+    "every query point inside or outside the box (clipped rounded fractional coordinate, per-axis separability), and the "
+    "lower corner of the enclosing sub-cube for which='origin'; "
+    "the modelled cubic method (index/slice bookkeeping as coded) equals the interpolation nested along z, y, x over the inner "
+    "nodes 1..s-3 of each axis, and nested interpolation over any 1-D operator exact on cubics reproduces every "
+    "tensor-cubic polynomial and its partial derivatives; the Bell-polynomial chain rule of the logarithmic variant up to order 3. "
     "Exploration only (labelled): the Fourier1 bound (all shapes <= 40 per axis enumerated), the cube-file text round trip, "
     "SciPy's CubicSpline/RegularGridInterpolator contracts."
 )
@@ -32,7 +36,7 @@ TECHNIQUE = ("Lean 4 proof over the regenerated index code (AST translator) and 
              "exhaustive enumeration for the Fourier1 bound; randomized round trips for cube files")
 GEN = ["cubic_index"]
 LEAN_MODULES = ["GridVerif.Props.C13.Index", "GridVerif.Props.C13.Weights", "GridVerif.Props.C13.Helpers",
-                "GridVerif.Props.C13.Interp"]
+                "GridVerif.Props.C13.Interp", "GridVerif.Props.C13.InterpModel"]
 THEOREMS = [
     # Index
     "GridVerif.C13.coordinates_to_index_eq3",
@@ -66,22 +70,33 @@ THEOREMS = [
     "GridVerif.C13.fourier2_raises_2d",
     "GridVerif.C13.fourier2_dir_sum_two",
     "GridVerif.C13.fourier2_sum_zero_at",
+    "GridVerif.C13.fourier2_dir_sum_even",
+    "GridVerif.C13.fourier2_sum_zero_even",
     "GridVerif.C13.fourier2_bound_fails_at",
     "GridVerif.C13.weight_schemes_full_false",
     # Helpers
     "GridVerif.C13.from_molecule_margin_partial",
+    "GridVerif.C13.from_molecule_spec",
+    "GridVerif.C13.from_molecule_margin_centred",
     "GridVerif.C13.from_molecule_witness",
     "GridVerif.C13.from_molecule_margin_fails_at",
     "GridVerif.C13.from_molecule_margin_full_false",
+    "GridVerif.C13.from_molecule_rotate_witness",
+    "GridVerif.C13.from_molecule_rotate_fails_at",
     "GridVerif.C13.closest_point_spec3",
     "GridVerif.C13.closest_point_spec2",
-    "GridVerif.C13.closest_point_negative_axis_fails_at",
-    "GridVerif.C13.closest_point_outside_fails_at",
-    "GridVerif.C13.closest_point_full_false",
+    "GridVerif.C13.axis_nearest_clip",
+    "GridVerif.C13.closest_point_full_holds",
+    "GridVerif.C13.closest_point_origin_spec3",
+    "GridVerif.C13.closest_point_repaired_at",
     # Interp
     "GridVerif.C13.nested_interp_exact",
     "GridVerif.C13.tensor_cubic_partial_derivs",
     "GridVerif.C13.log_chain_rule",
+    # InterpModel
+    "GridVerif.C13.interp_cubic_eq_nested",
+    "GridVerif.C13.interp_cubic_exact",
+    "GridVerif.C13.uniform_diag_is_tensor",
 ]
 RULE = (
     "correspondence: random shapes (2..9 per axis, non-cubic), dims 2 and 3, every flat index and every coordinate of "
@@ -598,7 +613,7 @@ def _or_index_layout(ctx, cub, rng, big):
         for idx in range(n):
             c = tuple(int(x) for x in g.index_to_coordinates(idx))
             if c != tuple(ref[idx]) or int(g.coordinates_to_index(c)) != idx:
-                ctx.fail("oracle", f"cubic.index:{dim}d", f"shape {shape}: index {idx} -> {c} -> {int(g.coordinates_to_index(c))}; lexicographic coordinates are {tuple(ref[idx])}",
+                ctx.fail("oracle", f"cubic.index:{dim}d", f"shape {shape}: index {idx} -> {c} -> {int(g.coordinates_to_index(c))}; lexicographic coordinates are {tuple(int(x) for x in ref[idx])}",
                          witness=dict(wit, index=idx),
                          snippet=SNIP_HEAD + f"g = UniformGrid(np.zeros({dim}), np.eye({dim}), np.array({shape}))\nc = g.index_to_coordinates({idx})\nassert tuple(int(x) for x in c) == {tuple(int(x) for x in ref[idx])} and g.coordinates_to_index(c) == {idx}\n")
                 break
@@ -617,7 +632,7 @@ def _or_index_layout(ctx, cub, rng, big):
             c = ref[idx]
             want = [float(fo[d] + sum(int(c[m]) * fa[m][d] for m in range(dim))) for d in range(dim)]
             if not _cmp_floats(_fl(g.points[idx]), want, 1e-13, scale):
-                ctx.fail("oracle", f"cubic.UniformGrid.layout:{dim}d", f"shape {shape}: point {idx} is {_fl(g.points[idx])}, origin + sum c_m a_m for c={tuple(c)} is {want}",
+                ctx.fail("oracle", f"cubic.UniformGrid.layout:{dim}d", f"shape {shape}: point {idx} is {_fl(g.points[idx])}, origin + sum c_m a_m for c={tuple(int(x) for x in c)} is {want}",
                          witness=dict(wit, index=idx),
                          snippet=SNIP_HEAD + f"origin, axes, shape = np.array({_fl(origin)!r}), np.array({axes.tolist()!r}), np.array({shape!r})\n"
                          f"g = UniformGrid(origin, axes, shape)\nc = np.array(np.unravel_index({idx}, shape))\nassert np.allclose(g.points[{idx}], origin + c @ axes, rtol=0, atol=1e-12)\n")
@@ -641,7 +656,7 @@ def _or_tensor(ctx, cub, rng, big):
             wantp = [float(gs[d].points[c[d]]) for d in range(dim)]
             wantw = float(np.prod([Fraction(float(gs[d].weights[c[d]])) for d in range(dim)]))
             if _fl(g.points[idx]) != wantp or not close(float(g.weights[idx]), wantw, rtol=1e-14, scale=1.0):
-                ctx.fail("oracle", f"cubic.Tensor1DGrids:{dim}d", f"shape {shape}: entry {idx} is not the tuple of 1-D nodes / product of 1-D weights at {tuple(c)}",
+                ctx.fail("oracle", f"cubic.Tensor1DGrids:{dim}d", f"shape {shape}: entry {idx} is not the tuple of 1-D nodes / product of 1-D weights at {tuple(int(x) for x in c)}",
                          witness={"shape": shape, "index": idx})
                 break
         # separable integrand
@@ -731,7 +746,8 @@ def _or_fourier1(ctx, cub, rng, big):
 
 
 def _or_from_molecule(ctx, cub, rng, big):
-    mols = [(np.array([9.0, 1.0]), np.array([[0.0, 0, 0], [10.0, 0, 0]]), 1.0, 2.0, False)]     # the Lean witness
+    mols = [(np.array([9.0, 1.0]), np.array([[0.0, 0, 0], [10.0, 0, 0]]), 1.0, 2.0, False),      # the Lean witnesses
+            (np.ones(4), np.array([[0.0, 5, 0], [0, -5, 0], [0, 0, 2], [0, 0, -2]]), 1.0, 1.0, True)]
     for it in range(30 if not big else 500):
         nums, coords = rand_molecule(rng, symmetric=it % 3 == 0)
         mols.append((nums, coords, rng.choice([0.2, 0.5, 1.0]), rng.choice([1.0, 2.0, 5.0]), it % 2 == 0))
@@ -742,16 +758,27 @@ def _or_from_molecule(ctx, cub, rng, big):
         low = t.min(0) * spacing
         high = (np.array(g.shape) - 1 - t.max(0)) * spacing
         m = float(min(low.min(), high.min()))
+        # centre of charge == centre of the extent on every axis (grid frame): the margin is a theorem there
+        # (from_molecule_margin_centred), so a failure is not the known centring defect
+        tcom = ((np.dot(nums, coords) / nums.sum()) - g.origin) @ np.linalg.inv(g.axes)
+        centred = bool(np.abs(tcom - 0.5 * (t.max(0) + t.min(0))).max() * spacing < 1e-9)
+        ctx.tagc("oracle:from_molecule:" + ("centred" if centred else "off-centre"))
         if m < ext - spacing - 1e-9:
             what = "lies outside the box" if m < -1e-9 else "has less than the requested margin"
-            ctx.fail("oracle", "cubic.UniformGrid.from_molecule:margin",
+            # centred + rotate=True: the extent is measured along the columns of eigh's matrix, the grid runs along its rows
+            ctx.fail("oracle", "cubic.UniformGrid.from_molecule:margin" + ((":rotate-frame" if rot else ":centred") if centred else ""),
                      f"a nucleus {what}: margin {m:.4g} < extension - spacing = {ext - spacing:.4g} (rotate={rot}, {len(nums)} atoms)",
                      witness={"atcorenums": _fl(nums), "atcoords": coords.tolist(), "spacing": spacing, "extension": ext, "rotate": rot, "margin": m},
                      snippet=SNIP_MOL.format(nums=_fl(nums), coords=coords.tolist(), spacing=spacing, ext=ext, rot=rot))
 
 
 def _or_closest(ctx, cub, rng, big):
-    cases = [("neg", [3, 3, 3], np.diag([-1.0, 1.0, 1.0]), np.zeros(3), np.array([-1.0, 0.0, 0.0])),     # Lean witnesses
+    """Brute force: `which="closest"` must return a nearest node for every non-zero diagonal axes (either
+    sign) and every query point (inside or outside the box). `which="origin"` (docstring: the bottom,
+    left-most, down-most corner of the sub-cube holding the point): for a point inside the box the returned
+    node is the closest among the nodes whose integer coordinates do not exceed the point's fractional
+    coordinates on any axis."""
+    cases = [("neg", [3, 3, 3], np.diag([-1.0, 1.0, 1.0]), np.zeros(3), np.array([-1.0, 0.0, 0.0])),     # former defect witnesses
              ("out", [3, 3, 3], np.eye(3), np.zeros(3), np.array([0.0, 0.0, 3.0]))]
     for it in range(120 if not big else 3000):
         dim = rng.choice([2, 3])
@@ -766,13 +793,12 @@ def _or_closest(ctx, cub, rng, big):
         pt = origin + np.array(c) @ axes
         neg = bool((np.diag(axes) < 0).any())
         out = any(x < -0.5 or x > s - 0.5 for x, s in zip(c, shape))
-        cases.append(("neg" if neg else ("out" if out else "in"), shape, axes, origin, pt))
+        cases.append((("neg" if neg else "pos") + ("-out" if out else "-in"), shape, axes, origin, pt))
     for cls, shape, axes, origin, pt in cases:
         ctx.tagc(f"oracle:closest:{cls}")
         g = cub.UniformGrid(origin, axes, np.array(shape), weight="Rectangle")
         d = np.linalg.norm(g.points - pt, axis=1)             # brute force
-        key = {"in": "cubic.UniformGrid.closest_point", "neg": "cubic.UniformGrid.closest_point:negative-axis",
-               "out": "cubic.UniformGrid.closest_point:outside-box"}[cls]
+        wit = {"class": cls, "shape": shape, "origin": _fl(origin), "axes": axes.tolist(), "point": _fl(pt)}
         try:
             r = g.closest_point(pt, "closest")
             ok = float(r) == int(r) and 0 <= int(r) < g.size and d[int(r)] <= d.min() + 1e-12
@@ -780,9 +806,24 @@ def _or_closest(ctx, cub, rng, big):
         except Exception as e:
             ok, got = False, type(e).__name__
         if not ok:
-            ctx.fail("oracle", key, f"closest_point returned {got} for shape {shape}, diagonal axes {_fl(np.diag(axes))}; the nearest node is {int(d.argmin())}",
-                     witness={"shape": shape, "origin": _fl(origin), "axes": axes.tolist(), "point": _fl(pt), "returned": got, "nearest": int(d.argmin())},
+            ctx.fail("oracle", "cubic.UniformGrid.closest_point", f"closest_point returned {got} for shape {shape}, diagonal axes {_fl(np.diag(axes))} "
+                     f"({cls}); the nearest node is {int(d.argmin())}", witness=dict(wit, returned=got, nearest=int(d.argmin())),
                      snippet=SNIP_CLOSEST.format(origin=_fl(origin), axes=axes.tolist(), shape=shape, pt=_fl(pt)))
+        # which="origin"
+        frac = (pt - origin) / np.diag(axes)
+        if all(1e-9 < x % 1.0 < 1 - 1e-9 and 0 < x < s - 1 for x, s in zip(frac, shape)):
+            ref = np.array(np.unravel_index(np.arange(g.size), shape)).T
+            cand = np.where((ref <= frac).all(axis=1))[0]
+            want = int(cand[np.argmin(d[cand])])
+            ctx.tagc("oracle:closest:origin-mode")
+            try:
+                r = g.closest_point(pt, "origin")
+                ok, got = float(r) == want, repr(float(r))
+            except Exception as e:
+                ok, got = False, type(e).__name__
+            if not ok:
+                ctx.fail("oracle", "cubic.UniformGrid.closest_point:origin", f"closest_point(which='origin') returned {got} for shape {shape}, diagonal axes "
+                         f"{_fl(np.diag(axes))}; the lower corner of the sub-cube holding the point is node {want}", witness=dict(wit, returned=got, want=want))
 
 
 def _or_cube(ctx, cub, rng, big):
